@@ -322,6 +322,11 @@ func (e *Exec) processLoop(outer *region, li *loopInfo, pre *State) {
 				return
 			}
 			if k >= unroll {
+				if spec != nil && len(spec.Invs) > 0 {
+					// the first iterations were executed exactly; the rest is summarised by the invariants
+					pre = st
+					goto cut
+				}
 				if e.spec > 0 {
 					unsupported("spec loop in %s not finished after %d iterations", fr.fn, unroll)
 				}
@@ -347,6 +352,7 @@ func (e *Exec) processLoop(outer *region, li *loopInfo, pre *State) {
 			st = e.merge(sts)
 		}
 	}
+cut:
 	// cut the loop with invariants
 	pos := token.NoPos
 	for _, in := range li.header.Instrs {
@@ -967,7 +973,8 @@ func (e *Exec) execInstr(fr *frame, st *State, instr ssa.Instruction) {
 			if sz == 0 {
 				sz = 1
 			}
-			e.safety(st, "alloc", smt.BVUle(smt.BVMul(cp, smt.Const(64, sz)), e.allocBound), x.Pos())
+			// cp*sz cannot wrap: cp is first bounded by (2^64-1)/sz
+			e.safety(st, "alloc", smt.And(smt.BVUle(cp, smt.Const(64, ^uint64(0)/sz)), smt.BVUle(smt.BVMul(cp, smt.Const(64, sz)), e.allocBound)), x.Pos())
 		}
 		fr.vals[x] = e.makeSlice(st, et, ln, cp)
 	case *ssa.MakeMap:
